@@ -323,8 +323,9 @@ func (s *ManagedServer) LoadFromFile() error {
 	defer close()
 
 	s.mu.Lock()
-	// Skip if the file content is unchanged.
-	if content == s.cachedContent {
+	// Skip if the file content is unchanged since the last successful load.
+	// An empty file must not be mistaken for unchanged content on the first load.
+	if s.cachedCredMap != nil && content == s.cachedContent {
 		s.mu.Unlock()
 		return nil
 	}
